@@ -19,6 +19,9 @@ CHECKS = {
     "C05": dict(spec="StdioFraming", ref="DESIGN.md §4 C05",
                 text="StdioFraming specifies the reader over a stream description (line ends, well-formedness, positions inside multi-byte characters) with the environment choosing the cuts; TLC checks prefix, completeness and chunk-independence for every chunking with <= 2 cuts of ~190 generated streams (12 line kinds x 7 text classes x LF/CRLF, 1-2 lines, unterminated tails) and, as a vacuity guard, that per-chunk decoding dies on the same cut sets. TLC emits the chunkings; each is fed to the real _stdout_reader (StdioClient behind a process seam) and the per-chunk deliveries on the read and notification streams are validated by TLC against the specification; seeded long streams (up to 450 lines, > 100 messages per chunk) cover the bounded read stream.",
                 note="Trusted: TLC, the process seam, the drain loop of the driver. Known finding: objects with a missing/wrong jsonrpc member are delivered (pinned by repository tests)."),
+    "C06": dict(spec="StdioOut", ref="DESIGN.md §4 C06",
+                text="StdioOut specifies the writer task: items accepted on the write stream (typed message, dict, compact string, three unserialisable shapes) are written one line each in order or dropped alone, and closing the write stream closes the child's stdin after the queue drains; TLC checks order/no-loss, closed-only-after-drain and (with fairness) close-reaches-child exhaustively for <= 4 items. Every behaviour of the 3-item instance (accept/write interleavings included) plus seeded scripts of up to 30 items with unserialisable items at every position run against the real _stdin_writer behind the process seam; TLC validates the recorded Accept/Line/CloseWrite/StdinClosed events against the specification, byte-level line facts arriving as a per-line flag.",
+                note="Trusted: TLC, the process seam, the driver's byte-level line check (one LF at the end, no raw CR/LF inside, UTF-8, decoded value equals the item)."),
     "C07": dict(spec="ErrorClass", ref="DESIGN.md §4 C07",
                 text="The error-code sets and helper list are extracted from the tree into TLA+ constants; TLC checks disjointness, partition of the named codes, equality with the documented sets and totality/agreement of the classification over all 1602 codes x helpers. Every code of both ranges plus seeded 64-bit codes is then sent as an error response (7 shapes) to real calls of every discovered request helper and to is_retryable_error, and TLC judges each observed outcome (class raised, code and message carried, False from the boolean helpers) against the specification. The ErrNeverNormal clause is also checked on RequestWait and on recorded send_message traces.",
                 note="Trusted: TLC; the documented sets are transcribed from the pinned errors.py; 64-bit codes are abstracted to one class; send_initialize* are judged only for 'no normal return' (they convert version errors by design)."),
